@@ -24,9 +24,11 @@ def mc_kv(tier):
 
 
 def gen_cfg(nkeys, active, fillers, path=(0,), pre=("absent", "kv"), acts=("keep", "put", "del"),
-            ends=("commit", "drop", "reopen"), readback=False, nvals=4, qkeys=()):
-    return dict(NKeys=nkeys, NVals=nvals, Active=list(active), Fillers=set(fillers), Path=list(path),
-                PreKinds=set(pre), Acts=set(acts), Ends=set(ends), ReadBack=readback, QKeys=set(qkeys))
+            ends=("commit", "drop", "reopen"), readback=False, nvals=4, qkeys=(), tails=("none",), nestfill=()):
+    return dict(NKeys=nkeys, NVals=nvals, Active=list(active), Fillers=set(fillers), NestFill=set(nestfill),
+                Path=list(path),
+                PreKinds=set(pre), Acts=set(acts), Ends=set(ends), ReadBack=readback, QKeys=set(qkeys),
+                Tails=set(tails))
 
 
 def spread(n_active, n_fill, n_ghost=0):
@@ -71,6 +73,10 @@ def run_gens(v, gens, tag):
     st = dict(behaviours=0, replays=0, steps=0, states=0, transitions=0, samples=[], configs=[])
     for name, consts, profiles in gens:
         beh, s, t = kv.gen_behaviours(name, consts, workers=6)
+        # DB::check() steps belong to C05 (which replays them with page decoding); here a failing
+        # check must not hide what the following calls return
+        for b in beh:
+            b["steps"] = [x for x in b["steps"] if x.get("a") != "check"]
         n, steps = kv.replay_behaviours(v, beh, profiles, tag + "-" + name)
         st["behaviours"] += len(beh)
         st["replays"] += n
@@ -100,8 +106,19 @@ def check_C01(tier, seed):
         n, act, fill = spread(3, 3)
         gens.append(("nest3", gen_cfg(n, act, fill, path=(0, 2), pre=("absent", "kv", "bucket"),
                                       acts=("keep", "put", "del", "delb")), ["two", "empty"]))
+        # a modified nested bucket below interior nodes that merge: 3-level parent, deletes around it
+        act = [9, 10, 11, 12, 14, 15, 16, 17]
+        gens.append(("nfc8", gen_cfg(28, act, [k for k in range(28) if k not in act], pre=("kv",),
+                                     acts=("keep", "del"), ends=("commit",), nestfill=[13, 3]), ["three"]))
+        # one transaction that needs more than one 8 MiB extension step of the file
+        n, act, fill = spread(4, 0)
+        gens.append(("grow4", gen_cfg(n, act, fill, pre=("kv",), acts=("keep", "put"), ends=("commit", "reopen")),
+                     ["huge"]))
         runs = [dict(profile=p, seed=seed * 100 + i, n=6, len=50, nkeys=12, nvals=4, args=["--readback", "0"])
                 for i, p in enumerate(["two", "three", "overflow", "hibytes", "longkey", "empty"])]
+        # one transaction that grows the file by more than one 8 MiB extension step
+        runs.append(dict(profile="huge", seed=seed * 100 + 50, n=3, len=25, nkeys=8, nvals=4,
+                         args=["--readback", "0", "--presized", "0"]))
     else:
         n, act, fill = spread(7, 0)
         gens.append(("kv7", gen_cfg(n, act, fill), ["two", "flat", "hibytes"]))
@@ -208,6 +225,239 @@ def check_C08(tier, seed):
                      "above max, on leaf/branch boundaries by profile), every (bound kind)^2 x (key)^2 range incl. equal "
                      "and reversed, to_buckets / to_kv_pairs, next() x3 after exhaustion; expected results from "
                      "KVOps!Do (SeekResults allows either neighbour for an absent key); impl->spec: random traces")
+
+
+L1_ASSUME = KV_ASSUME + [
+    "the in-binary libc interposer (harness/src/iohook.rs) sees every write / fsync on the database file",
+    "harness/src/parse.rs decodes the pinned on-disk layout faithfully (it judges nothing: all predicates are TLA+)",
+    "hook points are add-only and sit where DESIGN.md 4.1 says",
+]
+
+
+def l1_runs(v, runs, tag, stats, scope=None, sync_rule=None):
+    import l1
+    for r in runs:
+        tf, p = l1.record_random(r, tag)
+        if p.returncode != 0:
+            lines = read_lines(tf) if os.path.exists(tf) else []
+            hist = kv.history_of(lines, len(lines)) if lines else []
+            v.report({"kind": "hang" if p.returncode == 86 else "abort", "rc": p.returncode, "profile": r["profile"]},
+                     {"run": r, "history": kv.to_steps(hist), "stderr": p.stderr[-1500:]})
+            try:
+                json.loads(lines[-1])
+            except Exception:
+                open(tf, "w").write("\n".join(lines[:-1]) + "\n")
+        st = l1.page_trace(v, tf, r, scope=scope, sync_rule=sync_rule)
+        for k in ("events", "states", "writes", "commits"):
+            stats[k] = stats.get(k, 0) + st[k]
+        stats["traces"] = stats.get("traces", 0) + r["n"]
+        if len(stats.setdefault("samples", [])) < 2:
+            lines = read_lines(tf)
+            ws = [json.loads(x) for x in lines if '"ev":"write"' in x][:3]
+            stats["samples"].append(ws)
+        os.remove(tf)
+
+
+def l1_gens(v, gens, tag, stats, scope=None, sync_rule=None):
+    import l1
+    for name, consts, profiles in gens:
+        beh, s, t = kv.gen_behaviours(name, consts, workers=6)
+        stats["states"] = stats.get("states", 0) + s
+        for prof in profiles:
+            tf, res, p = l1.record_behaviours(beh, prof, tag + "-" + name)
+            if p.returncode != 0:
+                v.report({"kind": "hang" if p.returncode == 86 else "abort", "rc": p.returncode, "profile": prof,
+                          "gen": name}, {"profile": prof, "gen": name, "stderr": p.stderr[-1500:]})
+            for ln in res:
+                o = json.loads(ln)
+                if o.get("summary"):
+                    stats["replays"] = stats.get("replays", 0) + o["histories"]
+                    continue
+                hist = beh[o["line"]]
+                sig = kv.replay_sig(o["dev"], hist)
+                sig["profile"] = prof
+                if scope and not scope(sig):
+                    v.skipped += 1
+                    continue
+                v.report(sig, {"profile": prof, "history": hist["steps"][:o["dev"]["step"] + 1], "nk": hist.get("nk"),
+                               "nv": hist.get("nv"), "got": o["dev"]["got"], "allowed": o["dev"]["exp"],
+                               "panic": o["dev"].get("panic")})
+            st = l1.page_trace(v, tf, {"profile": prof, "gen": name, "nkeys": consts["NKeys"], "nvals": consts["NVals"]},
+                               also_kv=False, scope=scope, sync_rule=sync_rule)
+            for k in ("events", "states", "writes", "commits"):
+                stats[k] = stats.get(k, 0) + st[k]
+            stats["behaviours"] = stats.get("behaviours", 0) + len(beh)
+            os.remove(tf)
+        stats.setdefault("configs", []).append(dict(name=name, behaviours=len(beh), profiles=profiles))
+
+
+def mc_page(tier, parts=("crash", "readers", "faults", "damage"), sensitive=()):
+    """Model-checks PageStore (the protocol as repaired in /repo) on the focused configurations.
+    `sensitive`: (config, invariant) pairs that MUST be violated (the pinned protocol variants):
+    a vacuity guard -- if the model cannot see the defect it cannot vouch for its absence."""
+    tot = dict(states=0, transitions=0, configs=[])
+    suffix = "fixed" if tier == "quick" else "fixed_thorough"
+    for p in parts:
+        cfg = "MC_Page_%s_%s.cfg" % (p, suffix)
+        if not os.path.exists(os.path.join(SPEC, cfg)):
+            cfg = "MC_Page_%s_fixed.cfg" % p
+        r = tlc_mc("PageStore", cfg, timeout=3300, workers=10)
+        if not r["ok"]:
+            raise ToolError("PageStore/%s violates %s" % (cfg, r["violated"]))
+        tot["states"] += r["states"]
+        tot["transitions"] += r["transitions"]
+        tot["configs"].append(dict(cfg=cfg, states=r["states"], transitions=r["transitions"]))
+    for cfg, inv in sensitive:
+        r = tlc_mc("PageStore", cfg, timeout=1200, workers=10)
+        if r["ok"] or inv not in " ".join(r["violated"]):
+            raise ToolError("vacuity guard: %s should violate %s but TLC says %s" % (cfg, inv, r["violated"] or "no error"))
+        tot["configs"].append(dict(cfg=cfg, expected_violation=inv, found=True))
+    return tot
+
+
+def finish_l1(v, tier, seed, mc, stats, rule):
+    cov = dict(states=mc["states"] + stats.get("states", 0), transitions=mc["transitions"] + stats.get("events", 0),
+               traces_validated_against_impl=stats.get("traces", 0) + stats.get("replays", 0),
+               evaluations=stats.get("events", 0), distinct_nontrivial=stats.get("commits", 0),
+               rule=rule + " distinct_nontrivial = commits whose every page write was decoded and checked",
+               samples=stats.get("samples") or [stats.get("configs")],
+               model=dict(module="PageStore", states=mc["states"], transitions=mc["transitions"]),
+               recorded=dict((k, stats.get(k)) for k in ("events", "writes", "commits", "traces", "replays", "behaviours")),
+               generated=stats.get("configs"), exhaustive=False)
+    return v.finish(tier, seed, "model_checking", cov, L1_ASSUME)
+
+
+def c05_scope(sig):
+    """C05 decides structure / accounting / DB::check; logical results are C01's business"""
+    if sig.get("kind") == "l1":
+        return sig["rule"] not in ("header-before-data-sync", "publish-before-sync", "release-bound", "must-release",
+                                   "reader-page-released")
+    if sig.get("kind") == "kv":
+        return sig.get("what") == "check"
+    return True
+
+
+def check_C05(tier, seed):
+    v = Verdict("C05")
+    mc = mc_page(tier)
+    stats = {}
+    gens = []
+    if tier == "quick":
+        n, act, fill = spread(2, 2)
+        gens.append(("nd2", gen_cfg(n, act, fill, pre=("kv", "bucket", "nest"), ends=("commit",),
+                                    acts=("keep", "delb", "delsub", "delsubdelb", "delbmkb", "delbput"),
+                                    tails=("none", "delpath", "delpathmk")), ["two", "overflow"]))
+        n, act, fill = spread(2, 3)
+        gens.append(("nd2d2", gen_cfg(n, act, fill, path=(0, 1), pre=("kv", "nest"), ends=("commit",),
+                                      acts=("keep", "put", "delsub", "delsubdelb", "delbmkb"),
+                                      tails=("none", "delpath", "delpathmk")), ["two"]))
+        n, act, fill = spread(3, 14)
+        gens.append(("kv3f14", gen_cfg(n, act, fill, ends=("commit",)), ["three"]))
+        runs = [dict(profile=p, seed=seed * 100 + i, n=4, len=50, nkeys=12, nvals=4, args=["--readback", "0"])
+                for i, p in enumerate(["two", "three", "overflow", "longkey"])]
+    else:
+        n, act, fill = spread(4, 2)
+        gens.append(("nd4", gen_cfg(n, act, fill, pre=("kv", "bucket", "nest"), ends=("commit", "reopen"),
+                                    acts=("keep", "delb", "delsub", "delsubdelb", "delbmkb", "delbput"),
+                                    tails=("none", "delpath", "delpathmk")), ["two", "overflow"]))
+        n, act, fill = spread(3, 3)
+        gens.append(("nd3d2", gen_cfg(n, act, fill, path=(0, 1), pre=("kv", "bucket", "nest"), ends=("commit",),
+                                      acts=("keep", "put", "delsub", "delsubdelb", "delbmkb", "delb"),
+                                      tails=("none", "delpath", "delpathmk")), ["two", "three"]))
+        n, act, fill = spread(6, 14)
+        gens.append(("kv6f14", gen_cfg(n, act, fill, ends=("commit",)), ["three", "longkey"]))
+        n, act, fill = spread(5, 30)
+        gens.append(("kv5f30", gen_cfg(n, act, fill, ends=("commit",)), ["three"]))
+        runs = [dict(profile=p, seed=seed * 1000 + i * 10 + j, n=8, len=70, nkeys=nk, nvals=5, args=["--readback", "0"])
+                for i, p in enumerate(["two", "three", "overflow", "longkey", "hibytes", "empty"])
+                for j, nk in enumerate([10, 30])]
+    l1_gens(v, gens, "C05", stats, scope=c05_scope)
+    l1_runs(v, runs, "C05", stats, scope=c05_scope)
+    return finish_l1(v, tier, seed, mc, stats,
+                     "every page image the library writes is decoded by the independent parser; TLC (Trace_Page) rebuilds the "
+                     "page table and at every header write evaluates the structural predicates (ids, types, counts, strictly "
+                     "ascending keys within and across pages, separators bound subtrees, elements inside their run, each page "
+                     "reached once) and the accounting (reachable + free-list run + persisted free ids = 2..num_pages-1, "
+                     "disjoint; reachable = pages the transaction owns; persisted list = free + pending), cross-checks the "
+                     "final file against the rebuilt table, and DB::check() must agree after every commit. Histories: "
+                     "TLC-generated nested-bucket deletions at several levels in one transaction (child then ancestor, "
+                     "delete+recreate, recreate as other kind) and kv edits on three-level trees, plus seeded random histories.")
+
+
+C02_RULES = ("header-before-data-sync", "publish-before-sync", "header-over-the-current-slot", "header-fields",
+             "invalid-header-written", "header-not-whole-page", "write-outside-commit", "header-write-outside-commit",
+             "live-page-overwritten", "alloc-of-live-page", "allocated-page-not-written", "data-write-after-header",
+             "write-beyond-end-of-file", "write-outside-allocation", "unaligned-write", "no-valid-header", "header-choice",
+             "stale-header-read")
+
+
+def c02_scope(sig):
+    if sig.get("kind") == "l1":
+        return sig["rule"] in C02_RULES
+    if sig.get("kind") == "kv":
+        return False
+    return True
+
+
+def check_C02(tier, seed):
+    import l1, crash
+    v = Verdict("C02")
+    mc = mc_page(tier, parts=("crash",), sensitive=[("MC_Page_crash_pinned.cfg", "AllImagesRecoverable")])
+    stats = dict(images=0, recipes=0, outcomes={})
+    if tier == "quick":
+        runs = [dict(profile=p, seed=seed * 100 + i, n=3, len=45, nkeys=12, nvals=4,
+                     args=["--readback", "0", "--states", "1"] + extra)
+                for i, (p, extra) in enumerate([("two", []), ("overflow", ["--presized", "0"]), ("three", []),
+                                                ("two", ["--presized", "0"])])]
+    else:
+        runs = [dict(profile=p, seed=seed * 1000 + i * 10 + j, n=8, len=70, nkeys=nk, nvals=5,
+                     args=["--readback", "0", "--states", "1"] + extra)
+                for i, (p, extra) in enumerate([("two", []), ("overflow", ["--presized", "0"]), ("three", []),
+                                                ("two", ["--presized", "0"]), ("longkey", []), ("hibytes", []),
+                                                ("empty", ["--presized", "0"])])
+                for j, nk in enumerate([10, 30])]
+    samples = []
+    for r in runs:
+        build_harness()
+        tf = os.path.join(scratch(), "C02-%s-%d.ndjson" % (r["profile"], r["seed"]))
+        raw = tf + ".raw"
+        args = ["trace", "--seed", r["seed"], "--n", r["n"], "--len", r["len"], "--profile", r["profile"],
+                "--nkeys", r["nkeys"], "--nvals", r["nvals"], "--out", tf, "--l1", "1", "--raw", raw] + r["args"]
+        p = run_jvh(args)
+        if p.returncode != 0:
+            v.report({"kind": "hang" if p.returncode == 86 else "abort", "rc": p.returncode, "profile": r["profile"]},
+                     {"run": r, "stderr": p.stderr[-1500:]})
+            continue
+        st = l1.page_trace(v, tf, r, scope=c02_scope, sync_rule="1")
+        for k in ("events", "states", "writes", "commits"):
+            stats[k] = stats.get(k, 0) + st[k]
+        rf, nrec, gstates = crash.gen_recipes(tf)
+        stats["states"] = stats.get("states", 0) + gstates
+        tot = crash.run_recipes(v, tf, raw, rf, r, jobs=8, many=(tier != "quick"))
+        stats["images"] += tot["images"]
+        stats["recipes"] += tot["recipes"]
+        for k, n in tot["outcomes"].items():
+            stats["outcomes"][k] = stats["outcomes"].get(k, 0) + n
+        stats["traces"] = stats.get("traces", 0) + r["n"]
+        if len(samples) < 3:
+            samples.append([json.loads(x) for x in read_lines(rf)[:3]])
+        for x in (tf, raw, rf):
+            os.remove(x)
+    cov = dict(states=mc["states"] + stats.get("states", 0), transitions=mc["transitions"] + stats.get("events", 0),
+               traces_validated_against_impl=stats.get("traces", 0),
+               evaluations=stats["images"], distinct_nontrivial=stats["recipes"],
+               rule="MC: PageStore with Kill and PowerLoss (every subset of unsynced writes, any of them torn) -- "
+                    "AllImagesRecoverable / AfterCrash / durability hold for the repaired protocol and are violated for the "
+                    "pinned one (vacuity guard). Binding: recorded commits of the real code are validated against the protocol "
+                    "(Trace_Page) and Gen_Crash enables Kill / PowerLoss at every position of the recorded write sequence; each "
+                    "abstract recipe (distinct_nontrivial) is concretised into images (evaluations): 512-byte sector tears of "
+                    "data writes, 8-byte word tears of header writes; each image is reopened by the real code and must show "
+                    "exactly an allowed committed state, pass DB::check and accept a further commit.",
+               samples=samples, model=mc, outcomes=stats["outcomes"],
+               recorded=dict((k, stats.get(k)) for k in ("events", "writes", "commits", "traces")), exhaustive=False)
+    return v.finish(tier, seed, "model_checking", cov, L1_ASSUME + [
+        "power-loss model of the property text: any subset of the writes since the last completed sync, sector / word tears",
+        "recorded states (dumps through the public API) are the reference for recovered content; Trace_KV validates them in C01"])
 
 
 def replay(prop, path):
